@@ -75,6 +75,40 @@ pub struct Error<E1, E2> {
     pub location: Range<usize>,
 }
 
+/// Parses a variable value as an integer constant.
+///
+/// The value is an optional sign followed by a constant in the same notation as
+/// a numeric constant in an expression: hexadecimal if it starts with `0x` or
+/// `0X`, octal if it starts with `0`, and decimal otherwise. This makes sure a
+/// variable denotes the same number whether it appears as `x` or `$x` in the
+/// expression.
+fn parse_variable_value(value: &str) -> Option<i64> {
+    let (negative, unsigned) = match value.strip_prefix('-') {
+        Some(unsigned) => (true, unsigned),
+        None => (false, value.strip_prefix('+').unwrap_or(value)),
+    };
+    let (radix, digits) = if let Some(digits) = unsigned
+        .strip_prefix("0x")
+        .or_else(|| unsigned.strip_prefix("0X"))
+    {
+        (0x10, digits)
+    } else if unsigned.starts_with('0') {
+        (0o10, unsigned)
+    } else {
+        (10, unsigned)
+    };
+    if digits.starts_with('+') {
+        // `from_str_radix` would accept a (second) sign here
+        return None;
+    }
+    let magnitude = u64::from_str_radix(digits, radix).ok()?;
+    if negative {
+        0_i64.checked_sub_unsigned(magnitude)
+    } else {
+        i64::try_from(magnitude).ok()
+    }
+}
+
 /// Expands a variable to its value.
 fn expand_variable<E: Env>(
     name: &str,
@@ -83,10 +117,10 @@ fn expand_variable<E: Env>(
 ) -> Result<Value, Error<E::GetVariableError, E::AssignVariableError>> {
     match env.get_variable(name) {
         Ok(None) => Ok(Value::Integer(0)),
-        // TODO Parse non-decimal integer and float
-        Ok(Some(value)) => match value.parse() {
-            Ok(number) => Ok(Value::Integer(number)),
-            Err(_) => Err(Error {
+        // TODO Parse float
+        Ok(Some(value)) => match parse_variable_value(value) {
+            Some(number) => Ok(Value::Integer(number)),
+            None => Err(Error {
                 cause: EvalError::InvalidVariableValue(value.to_string()),
                 location: location.clone(),
             }),
